@@ -9,6 +9,14 @@ let os (o : obs) = string_of_n o.pocket ^ " " ^ string_of_n o.public
 let oopt = function Some o -> os o | None -> "P P"
 
 let () =
+  (* the canonical form asked for twice, with the recogniser applied to another deal of the same cards in between *)
+  register "isoseq" (fun i o ->
+    if o.(0) = "P" then [Specfail ("c05_canonicalisation_aborts", "sequence " ^ i.(1) ^ " " ^ i.(2))] else
+    (if o.(0) = o.(2) && o.(1) = o.(3) then [] else
+       [Specfail ("c05_canonical_form_depends_on_what_was_asked_before",
+                  Printf.sprintf "cards %s: the canonical form of the deal with pocket %s is %s %s when asked first and %s %s after is_canonical was applied to the deal with pocket %s"
+                    i.(3) i.(2) o.(0) o.(1) o.(2) o.(3) i.(1))])
+    @ (if o.(4) = "1" then [] else [Specfail ("c05_canonical_form_recognised", "after the sequence the canonical form " ^ o.(0) ^ " " ^ o.(1) ^ " is not recognised")]));
   register "iso" (fun i o ->
     let d = deck () in
     let ob = { pocket = n_of_string i.(1); public = n_of_string i.(2) } in
